@@ -47,3 +47,33 @@ Theorem C05_positions_are_the_documented_ones :
                   geval_body ρ (compile se) = Some e /\ eval_p ρ se = Some e.
 Proof. exact (pos_tables_sound schema pos_spec pos_impl pos_tables_checked). Qed.
 Print Assumptions C05_positions_are_the_documented_ones.
+
+(* ---- the type grammar (ParseType), whole: Parse/TypeModel.v, Parse/TypeProofs.v, Parse/TypeSpan.v ---- *)
+From Verif Require Import Parse.TypeModel Parse.TypeProofs Parse.TypeSpan.
+
+(* whatever the model of ParseType accepts from a token list laid out like lexer output (tokens in source order without overlap,
+   non-empty, ">>" and "<>" two bytes wide, a builtin type name at least as wide as its letters) starts at its first token, ends no
+   later than the next token starts, and is well spanned: Pos() < End() at every node, an ARRAY's item strictly between "ARRAY" and its
+   closing bracket, struct fields in source order without overlap inside the brackets, a field name before its type, the components
+   of a dotted name ordered *)
+Theorem C05_type_positions : forall ts t r, last_eof ts -> chain ts -> toks_ok ts -> gtgt_ok ts -> parse_type ts = Ok (t, r) ->
+  (ty_pos t = ppos (cur ts) /\ ty_end t <= ppos (cur r) /\ wspan t)%Z.
+Proof. exact parse_type_span. Qed.
+Print Assumptions C05_type_positions.
+
+(* on every sentence of the type grammar, for every sub-tree *)
+Theorem C05_type_span_everywhere :
+  (forall t ts K, Tr t ts K -> S_ty t ts K) /\ (forall f ts K, TrField f ts K -> S_field f ts K) /\ (forall fs ts K, TrMore fs ts K -> S_more fs ts K).
+Proof. exact type_span. Qed.
+Print Assumptions C05_type_span_everywhere.
+
+(* the hypotheses on the token list are decidable and evaluated on every real token list of the correspondence *)
+Theorem C05_type_input_hypothesis_is_checkable : forall ts, type_input_okb ts = true -> chain ts /\ toks_ok ts /\ gtgt_ok ts.
+Proof. exact type_input_okb_ok. Qed.
+Print Assumptions C05_type_input_hypothesis_is_checkable.
+
+(* the GENERATED Pos()/End() (regenerated from ast/pos.go in every run) compute these extents on the four type node kinds *)
+Theorem C05_generated_positions_on_types : forall t, valid_end t ->
+  pe gbody geval_body schema pos_impl (ty_tree t) = Some (ty_pos t, ty_end t).
+Proof. exact pe_ty_tree. Qed.
+Print Assumptions C05_generated_positions_on_types.
